@@ -372,9 +372,15 @@ class GridInterp:
         self.x = xs[:n_io]
         self.y = [ys[j * n_io] for j in range(self.ny)]
         self.f = [[vals[j * n_io + i] for i in range(n_io)] for j in range(self.ny)]
+        if not _has_sym(self.y):
+            # the interpolant does not depend on the order in which the points are listed: rows with concrete coordinates
+            # are put in increasing order (tables written for a negative rail list their rows in decreasing magnitude)
+            order = sorted(range(self.ny), key=lambda j: self.y[j])
+            self.y = [self.y[j] for j in order]
+            self.f = [self.f[j] for j in order]
         import hashlib
 
-        sig = "|".join(str(_t(e).sexpr() if hasattr(_t(e), "sexpr") else e) for e in list(self.x) + list(self.y) + vals)
+        sig = "|".join(str(_t(e).sexpr() if hasattr(_t(e), "sexpr") else e) for e in list(self.x) + list(self.y) + [e for row in self.f for e in row])
         self.id = hashlib.sha1(sig.encode()).hexdigest()[:8]
 
     def __call__(self, xq, yq):
